@@ -7,6 +7,7 @@ from .values import *  # noqa
 from .values import SV, Ty, Unsupported
 from .state import State, Exc, Outcome
 from .engine_call import WS_RE
+from . import contracts as C
 
 
 class LibMixin:
@@ -135,6 +136,10 @@ class LibMixin:
         if k == "ref":
             if v.ty.cls and self.is_subclass_name(v.ty.cls, name):
                 return smt.TRUE
+            if v.ty.cls and v.ty.cls in C.CLASSES and name in C.CLASSES and not self.is_subclass_name(name, v.ty.cls) \
+                    and not name.endswith("Mixin") and not v.ty.cls.endswith("Mixin"):
+                # declared classes form a single-inheritance tree (mixins aside): unrelated classes share no instance
+                return smt.FALSE
             if name in ("str", "int", "list", "tuple", "bool"):
                 return smt.FALSE
             return self.issub_term(self.typeof(v.ts[0]), name)
